@@ -5,13 +5,18 @@ sys.path.insert(0, os.path.dirname(os.path.abspath(__file__)))
 import seeded
 
 def main(ids):
+    # --slots 1:j,2:k,3:l  stores out/patch1.diff as <ID>-sj, ... (later rounds reuse the file names 1..3)
+    remap = {}
+    if ids and ids[0] == "--slots":
+        remap = dict(x.split(":") for x in ids[1].split(","))
+        ids = ids[2:]
     for pid in ids:
         src = f"/tmp/seed/{pid}/out"
         for k in (1, 2, 3, 4, 5, 6, 7, 8, 9, "a", "b", "c", "d", "e", "f", "g", "h", "i"):
             p, d, m = (os.path.join(src, f"{n}{k}.{e}") for n, e in (("patch", "diff"), ("demo", "py"), ("meta", "json")))
             if not (os.path.exists(p) and os.path.exists(d)):
                 continue
-            dst = os.path.join(seeded.VERIF, "seeded", f"{pid}-s{k}")
+            dst = os.path.join(seeded.VERIF, "seeded", f"{pid}-s{remap.get(str(k), k)}")
             tmp = dst + ".tmp"
             shutil.rmtree(tmp, ignore_errors=True)
             os.makedirs(tmp)
